@@ -237,12 +237,20 @@ func (g *Registry) TakeOrphans() []InvT {
 
 // customMD extracts the custom metadata (keys x-vf-*); "-bin" values are
 // rendered in hex. Transport-level keys are excluded by construction.
-func customMD(ctx context.Context) (map[string][]string, string) {
+func customMD(ctx context.Context) (map[string][]string, string, string) {
 	out := map[string][]string{}
-	id := ""
+	id, plan := "", ""
 	md, _ := metadata.FromIncomingContext(ctx)
 	for k, vs := range md {
 		if !strings.HasPrefix(k, "x-vf-") {
+			continue
+		}
+		if k == "x-vf-plan-bin" {
+			// the back-end plan of a plan-in-metadata script: same bytes in
+			// both executions, acted upon rather than compared
+			if len(vs) > 0 {
+				plan = vs[0]
+			}
 			continue
 		}
 		if k == "x-vf-id" {
@@ -262,7 +270,7 @@ func customMD(ctx context.Context) (map[string][]string, string) {
 		}
 		out[k] = vv
 	}
-	return out, id
+	return out, id, plan
 }
 
 // ------------------------------------------------------- scripted service
@@ -317,21 +325,21 @@ func (b *Scripted) reply(id string, k int, p *planWire) proto.Message {
 	return c.msg()
 }
 
-func (b *Scripted) begin(ctx context.Context, md protoreflect.MethodDescriptor) (*Inv, string, bool) {
-	cmd, id := customMD(ctx)
+func (b *Scripted) begin(ctx context.Context, md protoreflect.MethodDescriptor) (*Inv, string, bool, string) {
+	cmd, id, plan := customMD(ctx)
 	inv := &Inv{Method: vschema.FullMethod(md), MD: cmd, EOFAfter: -1, State: "start", done: make(chan struct{})}
 	attached := false
 	if id != "" {
 		attached = b.Reg.attach(id, inv)
 	}
-	return inv, id, attached
+	return inv, id, attached, plan
 }
 
 func (b *Scripted) Unary(ctx context.Context, md protoreflect.MethodDescriptor, in proto.Message) (proto.Message, error) {
 	if md.Input().FullName() != chunkMD.FullName() {
 		return nil, status.Error(codes.Unimplemented, "proxy engine: method not scripted")
 	}
-	inv, id, attached := b.begin(ctx, md)
+	inv, id, attached, _ := b.begin(ctx, md)
 	defer func() {
 		inv.set(func() { inv.Finished, inv.State = true, "done" })
 		close(inv.done)
@@ -369,7 +377,7 @@ func (b *Scripted) Stream(md protoreflect.MethodDescriptor, ss grpc.ServerStream
 	if md.Input().FullName() != chunkMD.FullName() {
 		return status.Error(codes.Unimplemented, "proxy engine: method not scripted")
 	}
-	inv, id, attached := b.begin(ss.Context(), md)
+	inv, id, attached, metaPlan := b.begin(ss.Context(), md)
 	defer func() {
 		inv.set(func() { inv.Finished, inv.State = true, "done" })
 		close(inv.done)
@@ -414,6 +422,26 @@ func (b *Scripted) Stream(md protoreflect.MethodDescriptor, ss grpc.ServerStream
 		return true
 	}
 
+	if metaPlan != "" {
+		// plan-in-metadata script: nothing is read unless the plan says so
+		if !attached {
+			b.Reg.orphan(inv)
+		}
+		p := parsePlan(metaPlan)
+		if err := b.runSteps(p, id, single, recv, send, &eofSeen, &nsent); err != nil {
+			return err
+		}
+		if err := finalErr(p); err != nil {
+			return err
+		}
+		if single {
+			if !send(b.reply(id, 0, p)) {
+				return status.Error(codes.Aborted, "send failed")
+			}
+		}
+		return nil
+	}
+
 	first, ok := recv("awaiting-first-message")
 	if !ok {
 		if !attached {
@@ -434,30 +462,46 @@ func (b *Scripted) Stream(md protoreflect.MethodDescriptor, ss grpc.ServerStream
 		b.Reg.orphan(inv)
 	}
 	p := parsePlan(first.Script)
+	if err := b.runSteps(p, first.ID, single, recv, send, &eofSeen, &nsent); err != nil {
+		return err
+	}
+	if err := finalErr(p); err != nil {
+		return err
+	}
+	if single {
+		if !send(b.reply(first.ID, 0, p)) {
+			return status.Error(codes.Aborted, "send failed")
+		}
+	}
+	return nil
+}
+
+// runSteps executes the steps of a plan.
+func (b *Scripted) runSteps(p *planWire, id string, single bool, recv func(string) (chunk, bool), send func(proto.Message) bool, eofSeen *bool, nsent *int) error {
 	for _, step := range p.Steps {
 		switch step {
 		case "r":
-			if eofSeen {
+			if *eofSeen {
 				continue
 			}
-			if _, ok := recv("awaiting-message"); !ok && !eofSeen {
+			if _, ok := recv("awaiting-message"); !ok && !*eofSeen {
 				return status.Error(codes.Aborted, "recv failed")
 			}
 		case "e":
-			for !eofSeen {
-				if _, ok := recv("awaiting-half-close"); !ok && !eofSeen {
+			for !*eofSeen {
+				if _, ok := recv("awaiting-half-close"); !ok && !*eofSeen {
 					return status.Error(codes.Aborted, "recv failed")
 				}
 			}
 		case "s":
-			if !send(b.reply(first.ID, nsent, p)) {
+			if !send(b.reply(id, *nsent, p)) {
 				return status.Error(codes.Aborted, "send failed")
 			}
 		case "p":
-			for !eofSeen {
+			for !*eofSeen {
 				c, ok := recv("awaiting-message-or-half-close")
 				if !ok {
-					if !eofSeen {
+					if !*eofSeen {
 						return status.Error(codes.Aborted, "recv failed")
 					}
 					break
@@ -467,14 +511,6 @@ func (b *Scripted) Stream(md protoreflect.MethodDescriptor, ss grpc.ServerStream
 					return status.Error(codes.Aborted, "send failed")
 				}
 			}
-		}
-	}
-	if err := finalErr(p); err != nil {
-		return err
-	}
-	if single {
-		if !send(b.reply(first.ID, 0, p)) {
-			return status.Error(codes.Aborted, "send failed")
 		}
 	}
 	return nil
